@@ -127,10 +127,14 @@ def build_runner(race=False):
                 "\tgoogle.golang.org/protobuf v1.28.0\n)\n\n"
                 "replace github.com/bufbuild/connect-go => %s\n" % REPO)
     shutil.copy(os.path.join(REPO, "go.sum"), os.path.join(h, "go.sum"))
-    out = os.path.join(WORK, "bin", "runner-" + key + suffix)
+    out = os.path.join(WORK, "bin", "runner-" + key + suffix + ("-cover" if os.environ.get("VERIF_COVER") else ""))
     cmd = ["go", "build", "-tags", "verif", "-o", out]
     if race:
         cmd.append("-race")
+    if os.environ.get("VERIF_COVER"):
+        # coverage probe (tools/cover.sh): which statements of the library the scenario sets reach; the runner
+        # writes its counters to $GOCOVERDIR when it exits
+        cmd += ["-cover", "-coverpkg=github.com/bufbuild/connect-go/..."]
     cmd.append("./cmd/runner")
     t = time.time()
     r = subprocess.run(cmd, cwd=h, env=goenv(), capture_output=True, text=True)
